@@ -101,13 +101,14 @@ func (r *dirRec) tap(b []byte) {
 
 // op is one tamper operator bound to a structural position of one direction.
 type op struct {
-	kind   string // flip cut drop dup swap splice respswap
+	kind   string // flip cut drop dup swap splice respswap replay
 	dir    string
 	target int // element index in the direction's stream
 	offSel int // byte position selector inside the element
 	offRnd int
 	bit    int
 	from   int // splice: element index in the donor stream
+	back   int // replay: distance (in elements) to the earlier element delivered instead
 	donor  *dirRec
 	used   bool
 }
@@ -210,6 +211,15 @@ func forward(s *simrt.Sim, src, dst *simnet.TCPConn, r *dirRec, ops []*op) {
 		case "swap":
 			o.used = true
 			held, heldOp = b, o
+		case "replay":
+			if o.back <= 0 || idx-o.back < 0 {
+				emit(b)
+				return
+			}
+			fire(o, e)
+			p := r.elems[idx-o.back]
+			s.Fault(fmt.Sprintf("c02.replay.back=%d", o.back))
+			emit(in[p.start:p.end])
 		case "cut":
 			off := pickOff(o.offSel, o.offRnd, len(b)+1)
 			if o.offSel == 1 {
